@@ -139,9 +139,10 @@ class ModelElement(ABC):
 
     @name.setter
     def name(self, value: str):
-        self._name = value
+        # validate and write into the model first: a rejected name must not stay cached in the handle
         if self.__dict__.get('topo', None) is not None:
             self.set_property('name', value)
+        self._name = value
 
     @property
     def capacities(self):
